@@ -319,6 +319,12 @@ StepResult(s0, r) ==
                            THEN Rej("C06", r, "messages sent in response differ",
                                     [action |-> a.a, integ |-> a.integ, sq |-> a.sq, st |-> x0.st, expected |-> BriefSeq(exp), got |-> BriefSeq(r.outs)])
                            ELSE TRUE)
+                       \* "valid messages that follow are processed normally" (C16): a valid ResendRequest whose range holds the
+                       \* Reject of an earlier invalid message is answered with what was sent under those numbers, the Reject included
+                       /\ (IF a.a = "resend" /\ tag = "C10" /\ (\E j \in 1..Len(exp) : exp[j].ty = "3")
+                           THEN Rej("C16", r, "messages sent in response differ",
+                                    [action |-> a.a, integ |-> a.integ, sq |-> a.sq, st |-> x0.st, expected |-> BriefSeq(exp), got |-> BriefSeq(r.outs)])
+                           ELSE TRUE)
                        /\ (n2 \in BOOLEAN) /\ (n3 \in BOOLEAN) /\ (n4 \in BOOLEAN)]
         ELSE [s |-> x1, ok |-> (n2 \in BOOLEAN) /\ (n3 \in BOOLEAN) /\ (n4 \in BOOLEAN)]
 
